@@ -1684,6 +1684,10 @@ func (h *ResponseHeader) GetAll(key string) []string {
 }
 
 func appendHeaderLine(dst, key, value []byte) []byte {
+	if len(key) == 0 {
+		// a field name is a non-empty token: ": value" is not a header line
+		return dst
+	}
 	for _, k := range key {
 		// if header field contains invalid key, just skip it.
 		if bytesconv.ValidHeaderFieldNameTable[k] == 0 {
